@@ -100,11 +100,20 @@ class error_html(object):
         @param seg_data: data segment instance
         """
         cur_line = src.cur_line
+        seg_id = seg_data.get_seg_id()
+        if seg_id == 'SE':
+            # the node of the set is handed over at its ST only; the errors in the elements of SE hang on it too
+            st_node = self.errh.cur_st_node
+            if st_node is not None and st_node not in err_node_list \
+                    and getattr(st_node, 'cur_line_se', None) == cur_line:
+                err_node_list = list(err_node_list) + [st_node]
 
         #while errh
         ele_pos_map = {}
         for err_node in err_node_list:
             for ele in err_node.elements:
+                if seg_id == 'SE' and not any('(SE' in err[1] for err in ele.errors):
+                    continue  # an element of ST
                 ele_pos_map[ele.ele_pos] = ele.subele_pos
 
         t_seg = []  # list of formatted elements
@@ -150,7 +159,8 @@ class error_html(object):
             for ele in err_node.elements:
                 for (err_cde, err_str, err_val) in ele.get_error_list(seg_data.get_seg_id(), False):
                 #for (err_cde, err_str, err_val) in ele.errors:
-                    if not (seg_data.get_seg_id() == 'GE' and 'GS' in err_str):  # Ugly hack
+                    if not (seg_data.get_seg_id() == 'GE' and 'GS' in err_str) \
+                            and not (seg_id == 'SE' and '(SE' not in err_str):  # Ugly hack
                         self.fd.write('<span class="error">&nbsp;%s (Element Error Code: %s)</span><br />\n' %
                                       (escape_html_text(err_str), err_cde))
 
